@@ -79,6 +79,7 @@ type Cloud struct {
 
 	// what the provider cache holds: the last successful describe per group issued outside a group segment
 	Cache map[string]*ASGSnap
+	drift map[string]int64 // accepted decrementing terminations per group since its cached description was taken
 }
 
 func NewCloud(j *Journal, faults *FaultPlan) *Cloud {
@@ -160,7 +161,17 @@ func (s *ASGService) DescribeAutoScalingGroups(in *autoscaling.DescribeAutoScali
 	c := s.C
 	names := awsapi.StringValueSlice(in.AutoScalingGroupNames)
 	ev := c.J.Add(&Event{API: AwsDescASG, ASGs: names})
-	if k := c.Faults.next(AwsDescASG, ""); k != FNone {
+	omit := ""
+	if k := c.Faults.next(AwsDescASG, ""); k == FOmitFirst || k == FOmitLast {
+		if sorted := append([]string(nil), names...); len(sorted) > 0 {
+			sort.Strings(sorted)
+			omit = sorted[0]
+			if k == FOmitLast {
+				omit = sorted[len(sorted)-1]
+			}
+			ev.Note = "answer leaves out " + omit
+		}
+	} else if k != FNone {
 		err := awsErr(k, "DescribeAutoScalingGroups")
 		ev.Err, ev.Injected = err.Error(), true
 		return nil, err
@@ -171,7 +182,7 @@ func (s *ASGService) DescribeAutoScalingGroups(in *autoscaling.DescribeAutoScali
 	out := &autoscaling.DescribeAutoScalingGroupsOutput{}
 	for _, name := range names {
 		g, ok := c.ASGs[name]
-		if !ok {
+		if !ok || name == omit {
 			continue
 		}
 		grp := &autoscaling.Group{
@@ -203,7 +214,15 @@ func (s *ASGService) DescribeAutoScalingGroups(in *autoscaling.DescribeAutoScali
 		if c.J.CurGroup() < 0 {
 			// issued by provider construction or Refresh: this is what the provider caches
 			c.Cache[g.Name] = c.snap(g)
+			delete(c.drift, g.Name)
 		}
+	}
+	if old := c.Cache[omit]; omit != "" && old != nil && c.J.CurGroup() < 0 && c.drift[omit] != 0 {
+		// the provider keeps the description it had, which it has lowered itself since
+		cp := *old
+		cp.Desired -= c.drift[omit]
+		c.Cache[omit] = &cp
+		delete(c.drift, omit)
 	}
 	ev.Count = len(out.AutoScalingGroups)
 	return out, nil
@@ -295,6 +314,13 @@ func (s *ASGService) TerminateInstanceInAutoScalingGroup(in *autoscaling.Termina
 		err := awsErr(FServerErr, "TerminateInstanceInAutoScalingGroup")
 		ev.Err, ev.Injected = err.Error(), true
 		return nil, err
+	}
+	if dec {
+		// the provider lowers its cached desired capacity after every termination it saw accepted
+		if c.drift == nil {
+			c.drift = map[string]int64{}
+		}
+		c.drift[g.Name]++
 	}
 	out := &autoscaling.TerminateInstanceInAutoScalingGroupOutput{}
 	if !c.Fleet.NilActivity {
